@@ -1,3 +1,5 @@
+//go:build !no_c20
+
 package props
 
 import (
